@@ -37,6 +37,35 @@ def gen_heap_consts():
         pe, pt = t.find("self.ensure_heap_capacity("), t.find(touch)
         if pe < 0 or pt < 0 or pe > pt:
             raise ExtractError(f"{fn}: ensure_heap_capacity no longer precedes `{touch}`")
+    # accounting formulas: bytes per element of array / vec storage as size_bytes charges them, what the charge is based on
+    def elem_table(rel, enum, basis):
+        t = strip_comments(rd(rel))
+        fm = re.search(r"pub fn size_bytes\(&self\) -> usize \{(.*?)\n    \}", t, flags=re.S)
+        if not fm or "std::mem::size_of::<Self>()" not in fm.group(1):
+            raise ExtractError(f"{rel}: size_bytes changed shape")
+        arms = re.findall(r"%s::(\w+)\(\w+\)\s*=>\s*\w+\.%s\(\)(?:\s*\*\s*(\d+))?" % (enum, basis), fm.group(1))
+        if len(arms) != 4:
+            raise ExtractError(f"{rel}: size_bytes: expected four `{enum}::X(v) => v.{basis}() [* k]` arms, found {len(arms)}")
+        return [(n, int(k) if k else 1) for n, k in arms]
+    arr_elems = elem_table("bytecode/src/object/array.rs", "ArrayData", "len")
+    vec_elems = elem_table("bytecode/src/object/vec.rs", "VecData", "capacity")
+    # growth policy of VM::vec_reserve_checked and of the collector threshold
+    vb = re.search(r"fn vec_reserve_checked\b.*?\n    \}", al, flags=re.S)
+    if not vb:
+        raise ExtractError("vec_reserve_checked not found in alloc.rs")
+    # the doubling factor and the minimum capacity, wherever the expression has been split or renamed
+    mf = re.search(r"\.saturating_mul\((\d+)\)", vb.group(0))
+    mm = re.search(r"\.max\((\d+)\)", vb.group(0))
+    if not mf or not mm:
+        raise ExtractError("vec_reserve_checked: growth policy (saturating_mul(k) ... .max(m)) not found")
+    class _G:       # same interface as a match object
+        def __init__(self, a, b): self.a, self.b = a, b
+        def group(self, i): return self.a if i == 1 else self.b
+    mg = _G(mf.group(1), mm.group(1))
+    gcf = consts_of(rd("bytecode/src/heap/mod.rs"), ["GC_GROWTH_FACTOR"])
+    gt = strip_comments(rd("bytecode/src/heap/gc.rs"))
+    if not re.search(r"self\.next_gc\s*=\s*\(self\.bytes_allocated \* Self::GC_GROWTH_FACTOR\)\s*\.max\(Self::INITIAL_GC_THRESHOLD\)", " ".join(gt.split()).replace(") .max", ").max")):
+        raise ExtractError("Heap::sweep: next_gc = max(bytes * GC_GROWTH_FACTOR, INITIAL_GC_THRESHOLD) not found")
     import vlib
     ok, paths, log = vlib.harness_build(["hx_heaplimit"])
     if not ok:
@@ -56,7 +85,16 @@ def gen_heap_consts():
            f"Definition SZ_ARRAY : N := {sz['AelysArray']}%N.\n",
            f"Definition SZ_VEC : N := {sz['AelysVec']}%N.\n",
            f"Definition SZ_STRING : N := {sz['AelysString']}%N.\n",
-           f"Definition SZ_VALUE : N := {sz['Value']}%N.\n"]
+           f"Definition SZ_VALUE : N := {sz['Value']}%N.\n",
+           "From Coq Require Import String List.\nImport ListNotations.\n",
+           "(* bytes per element that size_bytes charges: arrays by length, vecs by capacity *)\n",
+           "Definition array_elem_bytes : list (string * N) := [" + "; ".join('("%s"%%string, %d%%N)' % a for a in arr_elems) + "].\n",
+           "Definition vec_elem_bytes : list (string * N) := [" + "; ".join('("%s"%%string, %d%%N)' % a for a in vec_elems) + "].\n",
+           "(* VM::vec_reserve_checked: new capacity = max (max required (factor * capacity)) minimum *)\n",
+           f"Definition VEC_GROWTH_FACTOR : N := {int(mg.group(1))}%N.\n",
+           f"Definition VEC_MIN_CAP : N := {int(mg.group(2))}%N.\n",
+           "(* Heap::sweep: next_gc = max (factor * bytes) INITIAL_GC_THRESHOLD *)\n",
+           f"Definition GC_GROWTH_FACTOR : N := {gcf['GC_GROWTH_FACTOR'][0]}%N.\n"]
     return write_if_changed("HeapConsts.v", "".join(out))
 
 
@@ -126,6 +164,21 @@ LINEAR_BUILDERS = {("string", n) for n in (
     ("bytes", "native_decode")}
 
 
+def _checker_fns(text):
+    """names of the functions of this file that perform a heap-limit check themselves or through another such function"""
+    fns = [(m.group(1), m.start()) for m in re.finditer(r"\bfn\s+(\w+)", text)]
+    bodies = {n: text[st:fns[i + 1][1] if i + 1 < len(fns) else len(text)] for i, (n, st) in enumerate(fns)}
+    chk = {n for n, b in bodies.items() if any(c in b[b.find("{"):] for c in LIMIT_CHECKS)}
+    changed = True
+    while changed:
+        changed = False
+        for n, b in bodies.items():
+            if n not in chk and any((c + "(") in b[b.find("{"):] for c in chk):
+                chk.add(n)
+                changed = True
+    return chk - {"ensure_heap_capacity"}
+
+
 def _paren_arg(text, i):
     """text[i] is just after an opening bracket: return the text up to the matching close"""
     depth, j = 1, i
@@ -180,9 +233,10 @@ def gen_heap_sites():
                 size_n = re.sub(r"\s+", "", size).replace("asusize", " as usize")
                 where, start = _enclosing(text, m.start(), rel.endswith(".inc"))
                 before = text[start:m.start()]
+                checks = LIMIT_CHECKS + tuple(n + "(" for n in _checker_fns(text))
                 if rel.startswith("bytecode/src/object") or rel.startswith("runtime/src/vm/manual_heap/"):
                     cls = 4
-                elif any(c in before for c in LIMIT_CHECKS):
+                elif any(c in before for c in checks):
                     cls = 1
                 elif any(c in before for c in OWN_BOUNDS):
                     cls = 2
@@ -205,7 +259,7 @@ def gen_heap_sites():
             if pm < 0 or name == "make_string":
                 continue
             mod = os.path.basename(rel)[:-3]
-            if "check_string_capacity(" in body[:pm]:
+            if any(c in body[:pm] for c in ("check_string_capacity(",) + tuple(n + "(" for n in _checker_fns(text))):
                 cls = 1
             elif (mod, name) in LINEAR_BUILDERS:
                 cls = 5
